@@ -31,23 +31,37 @@ def has_quantifier(e, _memo={}):
     return r
 
 
-def _hyps(ctx, using):
+def _flatten(hyps):
+    out = []
+    for h in hyps:
+        if z3.is_and(h):
+            out += _flatten(h.children())
+        else:
+            out.append(h)
+    return out
+
+
+def _hyps(ctx, using, flatten=False):
     """Hypotheses of a lemma: all of them (using=None), or the quantifier-free ones plus the listed quantified facts.
-    Proving from a subset is sound; every listed fact must BE a current hypothesis (checked), so nothing can be smuggled in."""
+    Proving from a subset is sound; every listed fact must BE a current hypothesis (checked), so nothing can be smuggled in.
+    flatten=True: top-level conjunctions among the hypotheses are split first (a conjunct of a hypothesis is a hypothesis)."""
     hyps = list(ctx.hyps())
     if using is None:
         return hyps
+    if flatten:
+        hyps, using = _flatten(hyps), _flatten(using)
+    ids = set(h.get_id() for h in hyps)
     for u in using:
-        if not any(u.eq(h) for h in hyps):
+        if u.get_id() not in ids and not any(u.eq(h) for h in hyps):
             raise RuntimeError('lemma hint is not a hypothesis of the path: %s' % str(u)[:200])
     return [h for h in hyps if not has_quantifier(h)] + list(using)
 
 
-def lemma(ctx, name, formula, using=None):
+def lemma(ctx, name, formula, using=None, flatten=False):
     """assert-then-assume like ctx.lemma, optionally proved from a named subset of the quantified hypotheses."""
     from .values import zbool
     f = zbool(formula)
-    ctx.obligations.append(('lemma:' + name, _hyps(ctx, using), f, 'lemma', None, None))
+    ctx.obligations.append(('lemma:' + name, _hyps(ctx, using, flatten), f, 'lemma', None, None))
     ctx.assume(f)
     return f
 
